@@ -9,7 +9,7 @@ use vcommon::{json, rng_for, Report};
 use zksync_consensus_network::verif::PoolWatch;
 
 pub fn run(args: &vcommon::Args, rep: &mut Report) {
-    let ncases: u64 = args.pick(300, 10000);
+    let ncases: u64 = args.pick(3000, 60000);
     let rt = tokio::runtime::Builder::new_current_thread().build().unwrap();
     for case in 0..ncases {
         if !rep.within_budget() { rep.count("stopped_by_budget"); break; }
